@@ -111,5 +111,44 @@ class PkgObj2Codec(FileCodecProtocol):
             return Obj2(json.load(f)["n"])
 
 
-CODECS = {"pkgobj2": (PkgObj2Codec, "file"),"tagstr": (TagStrCodec, "file"), "objjson": (ObjJsonCodec, "file"), "objpickle2": (ObjPickle2Codec, "codec"),
+class TagStr2Codec(CodecProtocol):
+    """A non-file codec (location string) for str: registered through add_codec like ObjPickle2Codec."""
+
+    def ref(self):
+        return ProtocolRef("user.tagstr2")
+
+    def handled_types(self):
+        return [SupportedType("str")]
+
+    def serialize_into(self, blob, loc):
+        _note("user.tagstr2", "ser", loc)
+        with open(str(loc), "wb") as f:
+            f.write(b"T2:" + blob.encode("utf-8"))
+
+    def deserialize_from(self, loc):
+        _note("user.tagstr2", "de", loc)
+        with open(str(loc), "rb") as f:
+            return f.read()[3:].decode("utf-8")
+
+
+class Bytes3Codec(CodecProtocol):
+    def ref(self):
+        return ProtocolRef("user.bytes3")
+
+    def handled_types(self):
+        return [SupportedType("bytes")]
+
+    def serialize_into(self, blob, loc):
+        _note("user.bytes3", "ser", loc)
+        with open(str(loc), "wb") as f:
+            f.write(b"B3" + bytes(blob))
+
+    def deserialize_from(self, loc):
+        _note("user.bytes3", "de", loc)
+        with open(str(loc), "rb") as f:
+            return f.read()[2:]
+
+
+CODECS = {"tagstr2": (TagStr2Codec, "codec"), "bytes3": (Bytes3Codec, "codec"),
+          "pkgobj2": (PkgObj2Codec, "file"),"tagstr": (TagStrCodec, "file"), "objjson": (ObjJsonCodec, "file"), "objpickle2": (ObjPickle2Codec, "codec"),
           "bytes2": (BytesUpperCodec, "file")}
